@@ -7,6 +7,7 @@ import (
 	"fmt"
 	"math/rand/v2"
 	"reflect"
+	"sort"
 	"strings"
 	"testing"
 
@@ -18,6 +19,10 @@ import (
 	"github.com/ava-labs/hypersdk/consts"
 	"github.com/ava-labs/hypersdk/examples/morpheusvm/actions"
 	mvm "github.com/ava-labs/hypersdk/examples/morpheusvm/vm"
+	"github.com/ava-labs/hypersdk/zzverif/codecx/c29a"
+	"github.com/ava-labs/hypersdk/zzverif/codecx/c29b"
+	"github.com/ava-labs/hypersdk/zzverif/codecx/c29c"
+	"github.com/ava-labs/hypersdk/zzverif/codecx/c29d"
 	"github.com/ava-labs/hypersdk/zzverif/kit"
 )
 
@@ -88,6 +93,35 @@ type C29Out struct {
 
 func (*C29Out) GetTypeID() uint8 { return 11 }
 
+// C29Ping / C29Ack have no serialized field: the native encoding is the type id alone.
+type C29Ping struct {
+	Local uint64 `json:"-"` // not serialized
+}
+
+func (*C29Ping) GetTypeID() uint8 { return 12 }
+
+type C29Ack struct{}
+
+func (*C29Ack) GetTypeID() uint8 { return 12 }
+
+// C29One has a single (one byte) field.
+type C29One struct {
+	V int8 `serialize:"true" json:"v"`
+}
+
+func (*C29One) GetTypeID() uint8 { return 13 }
+
+// C29Lists has only strings and lists.
+type C29Lists struct {
+	Note  string     `serialize:"true" json:"note"`
+	Raw   []byte     `serialize:"true" json:"raw"`
+	Names []string   `serialize:"true" json:"names"`
+	Ins   []C29Inner `serialize:"true" json:"ins"`
+	Grid  [][]uint16 `serialize:"true" json:"grid"`
+}
+
+func (*C29Lists) GetTypeID() uint8 { return 14 }
+
 // nativeBytes is "the type's own encoding" for the harness types: type id + linear codec,
 // exactly how morpheusvm's Transfer encodes itself.
 func nativeBytes(v codec.Typed) ([]byte, error) {
@@ -102,7 +136,9 @@ func nativeBytes(v codec.Typed) ([]byte, error) {
 var c29Strings = []string{"", "a", "héllo wörld", "日本語", "\"quoted\" \\ back/slash", "<html>&amp;</html>", "line\nbreak\ttab\u0000nul", "  ", "😀 emoji", strings.Repeat("x", 300)}
 
 // fill draws a random value with extremes; shape collects a coarse fingerprint.
-func fill(v reflect.Value, rng *rand.Rand, shape *strings.Builder, depth int) {
+// With empty set every string is "" and every list nil or empty (fixed arrays and
+// integers are drawn as usual).
+func fill(v reflect.Value, rng *rand.Rand, shape *strings.Builder, depth int, empty bool) {
 	switch v.Kind() {
 	case reflect.Uint8, reflect.Uint16, reflect.Uint32, reflect.Uint64:
 		bitsN := v.Type().Bits()
@@ -147,6 +183,11 @@ func fill(v reflect.Value, rng *rand.Rand, shape *strings.Builder, depth int) {
 		}
 		v.SetInt(x)
 	case reflect.String:
+		if empty {
+			v.SetString("")
+			shape.WriteString("s0")
+			return
+		}
 		i := rng.IntN(len(c29Strings) + 1)
 		if i == len(c29Strings) {
 			v.SetString(fmt.Sprintf("s%d", rng.IntN(1000)))
@@ -161,10 +202,20 @@ func fill(v reflect.Value, rng *rand.Rand, shape *strings.Builder, depth int) {
 				v.Index(i).SetUint(uint64(rng.UintN(256)))
 				continue
 			}
-			fill(v.Index(i), rng, shape, depth+1)
+			fill(v.Index(i), rng, shape, depth+1, empty)
 		}
 		shape.WriteByte(']')
 	case reflect.Slice:
+		if empty {
+			if rng.IntN(2) == 0 {
+				v.Set(reflect.Zero(v.Type()))
+				shape.WriteString("{N}")
+			} else {
+				v.Set(reflect.MakeSlice(v.Type(), 0, 0))
+				shape.WriteString("{E}")
+			}
+			return
+		}
 		var n int
 		switch rng.IntN(6) {
 		case 0:
@@ -194,7 +245,7 @@ func fill(v reflect.Value, rng *rand.Rand, shape *strings.Builder, depth int) {
 					s.Index(i).SetUint(uint64(rng.UintN(256)))
 					continue
 				}
-				fill(s.Index(i), rng, shape, depth+1)
+				fill(s.Index(i), rng, shape, depth+1, empty)
 			}
 			v.Set(s)
 		}
@@ -204,7 +255,7 @@ func fill(v reflect.Value, rng *rand.Rand, shape *strings.Builder, depth int) {
 			if v.Type().Field(i).Tag.Get("serialize") != "true" {
 				continue
 			}
-			fill(v.Field(i), rng, shape, depth)
+			fill(v.Field(i), rng, shape, depth, empty)
 		}
 	}
 }
@@ -250,29 +301,227 @@ func norm(v any) any {
 }
 
 type c29Case struct {
-	ABI   string `json:"abi"` // morpheusvm | harness
+	ABI   string `json:"abi"` // morpheusvm | harness | c29a | c29b | c29c | c29d
 	Type  string `json:"type"`
 	Kind  string `json:"kind"` // action | output
 	JSON  string `json:"json"`
 	Bytes string `json:"native_bytes"`
+	// Class is the key class: "" (plain), "zero-field", "same-name-other-layout" or both joined by '+'.
+	Class string `json:"class,omitempty"`
+	// Before are the "abi|type|kind" uses of the dynamic codec that preceded this case in
+	// the process: every (abi, type, kind) in the order of its first use, then "...", then
+	// the last few uses. A replay performs them (with zero values) before judging the case.
+	Before []string `json:"used_before,omitempty"`
 }
 
-var c29ABIs = map[string]abi.ABI{}
+// c29Proto is one registered (abi, type, kind).
+type c29Proto struct {
+	abi, kind, name string
+	typ             reflect.Type      // the Go struct type
+	layouts         map[string]string // struct type name (top-level and nested) -> deep field layout
+	nFields         int               // serialized fields of the top-level struct (embedded ones flattened)
+	listsOnly       bool              // every serialized field is a string or a list
+}
+
+func (p *c29Proto) key() string { return p.abi + "|" + p.name + "|" + p.kind }
+
+func (p *c29Proto) mk() codec.Typed { return reflect.New(p.typ).Interface().(codec.Typed) }
+
+var (
+	c29ABIs     = map[string]abi.ABI{}
+	c29ABINames []string
+	c29Protos   = map[string][]*c29Proto{} // by abi
+	c29ByKey    = map[string]*c29Proto{}
+	c29AddrType = reflect.TypeOf(codec.Address{})
+)
+
+// c29Layout fingerprints the serialized layout of a Go type by reflection (independent of
+// the abi package); named struct types reached are recorded in names.
+func c29Layout(t reflect.Type, names map[string]string, embedded bool) string {
+	switch t.Kind() {
+	case reflect.Struct:
+		var b strings.Builder
+		b.WriteByte('{')
+		for i := 0; i < t.NumField(); i++ {
+			f := t.Field(i)
+			if f.Tag.Get("serialize") != "true" {
+				continue
+			}
+			if f.Anonymous {
+				b.WriteString(strings.Trim(c29Layout(f.Type, names, true), "{}"))
+				continue
+			}
+			fmt.Fprintf(&b, "%s:%s;", strings.Split(f.Tag.Get("json"), ",")[0], c29Layout(f.Type, names, false))
+		}
+		b.WriteByte('}')
+		if !embedded {
+			names[t.Name()] = b.String()
+		}
+		return b.String()
+	case reflect.Array:
+		if t == c29AddrType {
+			return "Address"
+		}
+		return fmt.Sprintf("[%d]%s", t.Len(), c29Layout(t.Elem(), names, false))
+	case reflect.Slice:
+		return "[]" + c29Layout(t.Elem(), names, false)
+	default:
+		return t.Kind().String()
+	}
+}
+
+func c29Register(t *testing.T, name string, actionTypes, outputTypes []codec.Typed) {
+	a, err := abi.NewABI(actionTypes, outputTypes)
+	if err != nil {
+		t.Fatalf("harness: ABI %s: %v", name, err)
+	}
+	c29ABIs[name] = a
+	c29ABINames = append(c29ABINames, name)
+	add := func(kind string, vs []codec.Typed) {
+		for _, v := range vs {
+			typ := reflect.TypeOf(v).Elem()
+			p := &c29Proto{abi: name, kind: kind, name: typ.Name(), typ: typ, layouts: map[string]string{}}
+			top := c29Layout(typ, p.layouts, false)
+			p.nFields = strings.Count(topLevel(top), ";")
+			p.listsOnly = p.nFields > 0
+			for _, f := range strings.Split(topLevel(top), ";") {
+				if f == "" {
+					continue
+				}
+				ft := f[strings.Index(f, ":")+1:]
+				if ft != "string" && !strings.HasPrefix(ft, "[]") {
+					p.listsOnly = false
+				}
+			}
+			c29Protos[name] = append(c29Protos[name], p)
+			c29ByKey[p.key()] = p
+		}
+	}
+	add("action", actionTypes)
+	add("output", outputTypes)
+}
+
+// topLevel removes nested {...} groups from a layout, leaving "name:type;" per top-level field.
+func topLevel(layout string) string {
+	var b strings.Builder
+	depth := 0
+	for _, ch := range layout {
+		switch ch {
+		case '{':
+			depth++
+			if depth > 1 {
+				b.WriteString("struct")
+			}
+		case '}':
+			depth--
+		default:
+			if depth == 1 {
+				b.WriteRune(ch)
+			}
+		}
+	}
+	return b.String()
+}
 
 func c29Setup(t *testing.T) {
-	m, err := abi.NewABI(mvm.ActionParser.GetRegisteredTypes(), mvm.OutputParser.GetRegisteredTypes())
-	if err != nil {
-		t.Fatalf("harness: morpheusvm ABI: %v", err)
+	c29Register(t, "morpheusvm", mvm.ActionParser.GetRegisteredTypes(), mvm.OutputParser.GetRegisteredTypes())
+	c29Register(t, "harness",
+		[]codec.Typed{&C29Scalars{}, &C29Nested{}, &C29Small{}, &C29Ping{}, &C29One{}, &C29Lists{}},
+		[]codec.Typed{&C29Out{}, &C29Small{}, &C29Ack{}, &C29One{}})
+	c29Register(t, "c29a", c29a.Actions(), c29a.Outputs())
+	c29Register(t, "c29b", c29b.Actions(), c29b.Outputs())
+	c29Register(t, "c29c", c29c.Actions(), c29c.Outputs())
+	c29Register(t, "c29d", c29d.Actions(), c29d.Outputs())
+}
+
+// c29Tracker remembers which struct type names the process has already pushed through
+// the dynamic codec, under which ABI and with which layout.
+type c29Tracker struct {
+	prev       *c29Proto
+	seen       map[string]map[string]struct{} // type name -> layouts used so far
+	last       map[string]string              // type name -> layout at its latest use
+	first      map[string]bool
+	firstOrder []string
+	recent     []string
+}
+
+type c29Ctx struct {
+	switched         bool // other ABI than the preceding case
+	otherLayoutEver  bool // a type name of this value was used before with another layout
+	changedSinceLast bool // ... and its latest use had another layout
+	prevKey          string
+	before           []string
+}
+
+func newC29Tracker() *c29Tracker {
+	return &c29Tracker{seen: map[string]map[string]struct{}{}, last: map[string]string{}, first: map[string]bool{}}
+}
+
+func (tk *c29Tracker) use(p *c29Proto) c29Ctx {
+	var ctx c29Ctx
+	ctx.before = append(append(append([]string{}, tk.firstOrder...), "..."), tk.recent...)
+	if tk.prev != nil {
+		ctx.switched = tk.prev.abi != p.abi
+		ctx.prevKey = tk.prev.key()
 	}
-	h, err := abi.NewABI([]codec.Typed{&C29Scalars{}, &C29Nested{}, &C29Small{}}, []codec.Typed{&C29Out{}, &C29Small{}})
-	if err != nil {
-		t.Fatalf("harness: ABI of the harness types: %v", err)
+	for name, layout := range p.layouts {
+		if l, ok := tk.last[name]; ok && l != layout {
+			ctx.changedSinceLast = true
+		}
+		for l := range tk.seen[name] {
+			if l != layout {
+				ctx.otherLayoutEver = true
+			}
+		}
+		if tk.seen[name] == nil {
+			tk.seen[name] = map[string]struct{}{}
+		}
+		tk.seen[name][layout] = struct{}{}
+		tk.last[name] = layout
 	}
-	c29ABIs["morpheusvm"], c29ABIs["harness"] = m, h
+	if !tk.first[p.key()] {
+		tk.first[p.key()] = true
+		tk.firstOrder = append(tk.firstOrder, p.key())
+	}
+	tk.recent = append(tk.recent, p.key())
+	if len(tk.recent) > 4 {
+		tk.recent = tk.recent[1:]
+	}
+	tk.prev = p
+	return ctx
+}
+
+func c29Native(v codec.Typed) ([]byte, error) {
+	switch tv := v.(type) {
+	case *actions.Transfer:
+		return tv.Bytes(), nil
+	case *actions.TransferResult:
+		return tv.Bytes(), nil
+	}
+	return nativeBytes(v)
+}
+
+// c29Warm pushes a zero value of p through the dynamic codec without judging it
+// (replays: re-create what the process had used before the witness).
+func c29Warm(r *kit.Run, p *c29Proto) {
+	v := p.mk()
+	native, err := c29Native(v)
+	js, jerr := json.Marshal(v)
+	if err != nil || jerr != nil {
+		return
+	}
+	r.Guard("replay-warm-up", p.key(), func() {
+		if p.kind == "action" {
+			_, _ = dynamic.Marshal(c29ABIs[p.abi], p.name, string(js))
+			_, _ = dynamic.UnmarshalAction(c29ABIs[p.abi], native)
+		} else {
+			_, _ = dynamic.UnmarshalOutput(c29ABIs[p.abi], native)
+		}
+	})
 }
 
 // judgeC29 compares the ABI-driven codec with the native encoding for one value
-// given as (type name, JSON of the value, native bytes).
+// given as (abi, type name, JSON of the value, native bytes).
 func judgeC29(r *kit.Run, c c29Case) {
 	r.Eval()
 	a := c29ABIs[c.ABI]
@@ -281,14 +530,21 @@ func judgeC29(r *kit.Run, c c29Case) {
 	if err != nil {
 		r.T.Fatalf("harness: value JSON unparsable: %v", err)
 	}
+	pre := "C29/" + c.Type + "/"
+	switch {
+	case c.Class != "":
+		pre = "C29/" + c.Class + "/" + c.Type + "/"
+	case strings.HasPrefix(c.ABI, "c29"):
+		pre = "C29/" + c.ABI + "." + c.Type + "/"
+	}
 	r.Guard("dynamic", c, func() {
 		if c.Kind == "action" {
 			dyn, err := dynamic.Marshal(a, c.Type, c.JSON)
 			switch {
 			case err != nil:
-				r.Violation("C29/"+c.Type+"/marshal-error", c, "dynamic.Marshal of the value's JSON failed: %v", err)
+				r.Violation(pre+"marshal-error", c, "dynamic.Marshal(%s ABI, %s) of the value's JSON failed: %v", c.ABI, c.Type, err)
 			case !bytes.Equal(dyn, native):
-				r.Violation("C29/"+c.Type+"/marshal-bytes-differ", c, "dynamic.Marshal gives %x, the type's own encoding is %x", dyn, native)
+				r.Violation(pre+"marshal-bytes-differ", c, "dynamic.Marshal(%s ABI, %s) gives %x, the type's own encoding is %x", c.ABI, c.Type, dyn, native)
 			}
 		}
 		var back string
@@ -299,72 +555,115 @@ func judgeC29(r *kit.Run, c c29Case) {
 			back, err = dynamic.UnmarshalOutput(a, native)
 		}
 		if err != nil {
-			r.Violation("C29/"+c.Type+"/unmarshal-error", c, "dynamic unmarshal of the native bytes failed: %v", err)
+			r.Violation(pre+"unmarshal-error", c, "dynamic unmarshal (%s ABI) of the native bytes %x failed: %v", c.ABI, native, err)
+			return
+		}
+		if back == "" {
+			r.Violation(pre+"unmarshal-returns-nothing", c, "dynamic unmarshal (%s ABI) of the native bytes %x returned no JSON and no error, the value's JSON is %s", c.ABI, native, c.JSON)
 			return
 		}
 		got, err := normJSON(back)
 		if err != nil {
-			r.Violation("C29/"+c.Type+"/unmarshal-invalid-json", c, "dynamic unmarshal returned unparsable JSON %q: %v", back, err)
+			r.Violation(pre+"unmarshal-invalid-json", c, "dynamic unmarshal returned unparsable JSON %q: %v", back, err)
 			return
 		}
 		if !reflect.DeepEqual(got, want) {
-			r.Violation("C29/"+c.Type+"/unmarshal-json-differs", c, "dynamic unmarshal gives %s, the value's JSON is %s", back, c.JSON)
+			r.Violation(pre+"unmarshal-json-differs", c, "dynamic unmarshal (%s ABI) gives %s, the value's JSON is %s", c.ABI, back, c.JSON)
+		}
+	})
+}
+
+// c29NativeParse: morpheusvm's own parser reads the dynamic encoding of a Transfer back
+// to the same value (same native bytes).
+func c29NativeParse(r *kit.Run, c c29Case) {
+	r.Guard("native-parse-of-dynamic-bytes", c, func() {
+		dyn, err := dynamic.Marshal(c29ABIs["morpheusvm"], "Transfer", c.JSON)
+		if err != nil {
+			return // reported by judgeC29
+		}
+		back, err := mvm.ActionParser.Unmarshal(dyn)
+		if err != nil {
+			r.Violation("C29/Transfer/native-parser-rejects-dynamic-bytes", c, "native parser rejects dynamic.Marshal output %x: %v", dyn, err)
+			return
+		}
+		bt, ok := back.(*actions.Transfer)
+		if !ok || hex.EncodeToString(bt.Bytes()) != c.Bytes {
+			r.Violation("C29/Transfer/native-parser-differs", c, "native parser reads dynamic bytes %x as %+v, the value is %s", dyn, back, c.JSON)
 		}
 	})
 }
 
 func TestC29(t *testing.T) {
 	r := kit.Start(t, "C29", "exploration")
-	r.Rule("values drawn by reflection (every integer width at 0 / max / min / -1 / 2^53+1 / random, strings incl. unicode, escapes, NUL and 300 bytes, byte slices and lists nil / empty / 1 / few / 200+, nested and embedded structs, fixed arrays, lists of lists, addresses) of morpheusvm's Transfer / TransferResult and of harness-registered action/output structs; judged: dynamic.Marshal(abi, name, json(v)) == type id | linear-codec bytes of v (actions), dynamic.UnmarshalAction/UnmarshalOutput(native bytes) == json(v) compared as parsed JSON with exact numbers and null == empty; for Transfer also native parser(dynamic bytes) == v. Non-trivial = value with at least one non-zero field; distinct = (type, per-field value class / length class fingerprint).")
+	r.Rule("one process, PRNG-ordered interleaving of six ABIs: morpheusvm (Transfer / TransferResult), a harness ABI (structs covering every declared kind, plus types with ZERO serialized fields, a single field, only strings/lists) and four ABIs built with abi.NewABI from four Go type sets (packages c29a..c29d) that share the type names Transfer, TransferResult (also with morpheusvm), Batch, Ping, Lists, One, Ack, Receipt and the nested name Leg with different field lists / orders / widths / kinds / type ids; each step keeps the ABI of the preceding step (1/4) or draws one uniformly, then a registered type of it. Values drawn by reflection (every integer width at 0 / max / min / -1 / 2^53+1 / random, strings incl. unicode, escapes, NUL and 300 bytes, byte slices and lists nil / empty / 1 / few / 200+, nested and embedded structs, fixed arrays, lists of lists, addresses; 1 in 6 values with every string and list empty). Judged for the value actually used: dynamic.Marshal(abi, name, json(v)) == type id | linear-codec bytes of v (actions), dynamic.UnmarshalAction/UnmarshalOutput(abi, native bytes) == json(v) compared as parsed JSON with exact numbers and null == empty (and never an empty answer); for morpheusvm's Transfer also native parser(dynamic bytes) == v. Non-trivial = value with at least one non-zero field, or a step that switches the ABI; distinct = (abi, type, kind, per-field value class / length class fingerprint) and, for ABI switches, (preceding abi/type/kind -> this abi/type/kind).")
 	r.Assume(
 		"only kinds the ABI layer declares (ints of all widths, string, []byte, Address, structs, slices, fixed arrays); bool, maps, pointers and named non-struct types are outside its declared support",
 		"strings are valid UTF-8 (encoding/json itself is lossy otherwise)",
 		"dynamic.Marshal has no output path by design: only decoding is judged for outputs",
 		"JSON field names are distinct after title-casing (the dynamic layer derives Go field names that way)",
+		"within ONE ABI type names are unique (an ABI identifies types by name); the same name in different ABIs is a different type",
+		"types without serialized fields are only used as registered top-level types, not as list elements (the linear codec refuses zero-length list elements)",
 	)
 	c29Setup(t)
 	if rf := r.Replay(); rf != nil && len(rf.Witness) > 0 {
 		var c c29Case
 		if err := json.Unmarshal(rf.Witness, &c); err == nil && c.Type != "" {
+			for _, k := range c.Before {
+				if p := c29ByKey[k]; p != nil {
+					c29Warm(r, p)
+				}
+			}
 			judgeC29(r, c)
+			if c.ABI == "morpheusvm" && c.Type == "Transfer" {
+				c29NativeParse(r, c)
+			}
 			r.Finish(0)
 			return
 		}
 	}
+	// what the type sets share: name -> number of different layouts over all ABIs
+	{
+		byName := map[string]map[string]struct{}{}
+		for _, ps := range c29Protos {
+			for _, p := range ps {
+				for n, l := range p.layouts {
+					if byName[n] == nil {
+						byName[n] = map[string]struct{}{}
+					}
+					byName[n][l] = struct{}{}
+				}
+			}
+		}
+		shared := map[string]int{}
+		for n, ls := range byName {
+			if len(ls) > 1 {
+				shared[n] = len(ls)
+			}
+		}
+		r.Extra("type_names_with_several_layouts", shared)
+		abis := append([]string{}, c29ABINames...)
+		sort.Strings(abis)
+		r.Extra("abis", abis)
+	}
 	rng := r.Rand("values")
-	n := r.N(20000, 400000)
-	type proto struct {
-		abi, kind string
-		mk        func() codec.Typed
-	}
-	protos := []proto{
-		{"morpheusvm", "action", func() codec.Typed { return &actions.Transfer{} }},
-		{"morpheusvm", "output", func() codec.Typed { return &actions.TransferResult{} }},
-		{"harness", "action", func() codec.Typed { return &C29Scalars{} }},
-		{"harness", "action", func() codec.Typed { return &C29Nested{} }},
-		{"harness", "action", func() codec.Typed { return &C29Small{} }},
-		{"harness", "output", func() codec.Typed { return &C29Out{} }},
-		{"harness", "output", func() codec.Typed { return &C29Small{} }},
-	}
+	n := r.N(30000, 600000)
+	tk := newC29Tracker()
+	curABI := ""
 	for i := 0; i < n; i++ {
-		p := protos[rng.IntN(len(protos))]
+		if curABI == "" || rng.IntN(4) != 0 {
+			curABI = c29ABINames[rng.IntN(len(c29ABINames))]
+		}
+		ps := c29Protos[curABI]
+		p := ps[rng.IntN(len(ps))]
 		v := p.mk()
+		empty := rng.IntN(6) == 0
 		var shape strings.Builder
-		fill(reflect.ValueOf(v).Elem(), rng, &shape, 0)
-		name := reflect.TypeOf(v).Elem().Name()
+		fill(reflect.ValueOf(v).Elem(), rng, &shape, 0, empty)
+		name := p.name
 		if tr, ok := v.(*actions.Transfer); ok && len(tr.Memo) > actions.MaxMemoSize {
 			tr.Memo = tr.Memo[:actions.MaxMemoSize]
 		}
-		var native []byte
-		var err error
-		switch tv := v.(type) {
-		case *actions.Transfer:
-			native = tv.Bytes()
-		case *actions.TransferResult:
-			native = tv.Bytes()
-		default:
-			native, err = nativeBytes(v)
-		}
+		native, err := c29Native(v)
 		if err != nil {
 			r.Count("native_encoding_refused", 1) // e.g. string longer than the codec allows: no native encoding to compare with
 			continue
@@ -373,31 +672,48 @@ func TestC29(t *testing.T) {
 		if err != nil {
 			t.Fatalf("harness: json of %s: %v", name, err)
 		}
-		c := c29Case{ABI: p.abi, Type: name, Kind: p.kind, JSON: string(js), Bytes: hex.EncodeToString(native)}
+		ctx := tk.use(p)
+		var class []string
+		if p.nFields == 0 {
+			class = append(class, "zero-field")
+			r.Count("zero_field_values", 1)
+			if len(native) != 1 {
+				t.Fatalf("harness: %s has no serialized field but encodes to %x", p.key(), native)
+			}
+		}
+		if ctx.otherLayoutEver {
+			class = append(class, "same-name-other-layout")
+			r.Count("same_name_other_layout_uses", 1)
+		}
+		if ctx.changedSinceLast {
+			r.Count("same_name_layout_changed_since_latest_use", 1)
+		}
+		if ctx.switched {
+			r.Count("abi_switches", 1)
+		}
+		if p.nFields == 1 {
+			r.Count("single_field_type_values", 1)
+		}
+		if empty && p.listsOnly {
+			r.Count("values_with_only_empty_strings_and_lists", 1)
+		}
+		c := c29Case{ABI: p.abi, Type: name, Kind: p.kind, JSON: string(js), Bytes: hex.EncodeToString(native), Class: strings.Join(class, "+"), Before: ctx.before}
 		judgeC29(r, c)
-		r.Count("values_"+name+"_"+p.kind, 1)
-		if tr, ok := v.(*actions.Transfer); ok {
-			// the native parser reads the dynamic encoding back to the same value
-			r.Guard("native-parse-of-dynamic-bytes", c, func() {
-				dyn, err := dynamic.Marshal(c29ABIs["morpheusvm"], "Transfer", string(js))
-				if err != nil {
-					return // reported by judgeC29
-				}
-				back, err := mvm.ActionParser.Unmarshal(dyn)
-				if err != nil {
-					r.Violation("C29/Transfer/native-parser-rejects-dynamic-bytes", c, "native parser rejects dynamic.Marshal output: %v", err)
-					return
-				}
-				bt, ok := back.(*actions.Transfer)
-				if !ok || bt.To != tr.To || bt.Value != tr.Value || !bytes.Equal(bt.Memo, tr.Memo) {
-					r.Violation("C29/Transfer/native-parser-differs", c, "native parser reads dynamic bytes as %+v, value was %+v", back, tr)
-				}
-			})
+		if strings.HasPrefix(p.abi, "c29") {
+			r.Count("values_"+p.abi+"."+name+"_"+p.kind, 1)
+		} else {
+			r.Count("values_"+name+"_"+p.kind, 1)
+		}
+		if p.abi == "morpheusvm" && name == "Transfer" {
+			c29NativeParse(r, c)
 		}
 		if strings.ContainsAny(shape.String(), "Mmfnr123456789") {
-			r.Distinct(name, "|", p.kind, "|", shape.String())
+			r.Distinct(p.abi, "|", name, "|", p.kind, "|", shape.String())
 		}
-		if i < 4 {
+		if ctx.switched {
+			r.Distinct("switch|", ctx.prevKey, "->", p.key())
+		}
+		if i < 6 {
 			r.Sample(c)
 		}
 	}
